@@ -79,7 +79,15 @@ fn main() {
         let mut buf = ConcurrentStackRB::<usize, N>::default();
         let mut hist = String::new(); let mut next = 100usize;
         for _ in 0..(2 + rng.next(4)) {
-            if let Err(w) = session(&mut buf, &mut rng, &mut hist, &mut next) { println!("MISMATCH {}", w); std::process::exit(1); }
+            // a panic inside the crate during a session of legal operations is a departure in its own right: report the session so far
+            match std::panic::catch_unwind(std::panic::AssertUnwindSafe(|| session(&mut buf, &mut rng, &mut hist, &mut next))) {
+                Ok(Ok(())) => {}
+                Ok(Err(w)) => { println!("MISMATCH {}", w); std::process::exit(1); }
+                Err(e) => {
+                    let msg = e.downcast_ref::<String>().cloned().or_else(|| e.downcast_ref::<&str>().map(|x| x.to_string())).unwrap_or_default();
+                    println!("MISMATCH {}: the crate PANICKED in this split / operation: {}", hist, msg.replace('\n', " ")); std::process::exit(1);
+                }
+            }
             sessions += 1;
         }
     }
